@@ -352,6 +352,8 @@ func evalClassDeclareStmt(vm *r.VM, node *syntax.ClassDeclareStmt) error {
 		return err
 	}
 
+	vm.OwnType(classRef)
+
 	// add symbol to current scope first
 	if err := vm.DeclareConstElement(className, classRef); err != nil {
 		return err
@@ -432,9 +434,10 @@ func evalConstructorDeclareStmt(vm *r.VM, node *syntax.FunctionDeclareStmt) erro
 		vm.PopCallFrame()
 		return instance, nil
 	}
-	// a type exported by a library belongs to the process, not to this execution: the new
-	// constructor is kept by the VM, so that other executions still get the library's own
-	if module != nil && r.ParseLibName(module.GetName()).LibType == r.LIB_TYPE_STD {
+	// a type this execution has not created (a library's) belongs to the process: under whatever
+	// name it is reached, its new constructor is kept by the VM, so that other executions still
+	// get the library's own
+	if !vm.OwnsType(cmodel) {
 		vm.SetConstructorOf(cmodel, constructorLogic)
 		return nil
 	}
